@@ -136,9 +136,11 @@ def check_threads(seed, n_cases=6):
             r = inc(x)
             inside2.set()
             release2.wait(5)
-            return both(r, x)
+            # after the pause: a decorated function used before it (inc) and one the other build uses too (both)
+            return both(r, inc(x))
 
         first.__qualname__ = first.__name__ = "first"
+        built2["first_fn"] = first
         try:
             built2["a"] = dag(first)
         except BaseException as e:  # noqa: BLE001
@@ -161,6 +163,7 @@ def check_threads(seed, n_cases=6):
             return both(inc(y), inc(y))
 
         second.__qualname__ = second.__name__ = "second"
+        built2["second_fn"] = second
         try:
             built2["b"] = dag(second)
         except BaseException as e:  # noqa: BLE001
@@ -189,10 +192,17 @@ def check_threads(seed, n_cases=6):
         if dl is not None and (sorted(dl.exec_nodes) != sorted(["third>!>z", inc.id, both.id]) or dl(5) != ("both", ("inc", 5), 5)):
             v.append(f"the DAG built later by the thread whose build had been overlapped contains {sorted(dl.exec_nodes)} / computes {dl(5)!r}")
         da, db = built2.get("a"), built2.get("b")
-        if da is not None and (sorted(da.exec_nodes) != sorted(["first>!>x", inc.id, both.id]) or da(3) != ("both", ("inc", 3), 3)):
-            v.append(f"the DAG whose build was overlapped by another build contains {sorted(da.exec_nodes)} / computes {da(3)!r}")
-        if db is not None and db(4) != ("both", ("inc", 4), ("inc", 4)):
-            v.append(f"the DAG built while waiting for the first build computes {db(4)!r}")
+        # "DAGs built concurrently are identical to those built one after the other": the same describing functions built
+        # again now, alone, are the reference (node tables with their generated ids, and values)
+        try:
+            ref_a, ref_b = dag(built2["first_fn"]), dag(built2["second_fn"])
+        except BaseException as e:  # noqa: BLE001
+            ref_a = ref_b = None
+            v.append(f"building the two DAGs one after the other (after the overlapping builds) raised {type(e).__name__}: {str(e)[:80]}")
+        if da is not None and ref_a is not None and (sorted(da.exec_nodes) != sorted(ref_a.exec_nodes) or da(3) != ref_a(3) or da(3) != ("both", ("inc", 3), ("inc", 3))):
+            v.append(f"the DAG whose build was overlapped by another build contains {sorted(da.exec_nodes)} / computes {da(3)!r}; built alone: {sorted(ref_a.exec_nodes)} / {ref_a(3)!r}")
+        if db is not None and ref_b is not None and (sorted(db.exec_nodes) != sorted(ref_b.exec_nodes) or db(4) != ref_b(4) or db(4) != ("both", ("inc", 4), ("inc", 4))):
+            v.append(f"the DAG built while waiting for the first build contains {sorted(db.exec_nodes)} / computes {db(4)!r}; built alone: {sorted(ref_b.exec_nodes)} / {ref_b(4)!r}")
         if v:
             viol.append(dict(kind="threads", case="overlapping_builds", violations=v))
     else:
